@@ -7,9 +7,12 @@
    generation time behaves like division of real numbers on them (DivOK: strictly monotone,
    finite stays finite, infinity stays infinity, zero stays zero).  On binary64 DivOK is
    exactly what fails in the known findings F12a (two times collapse), F12b (overflow),
-   F12c (underflow); the harness classifies an invalid result by which of these occurs. *)
+   F12c (underflow); the harness classifies an invalid result by which of these occurs.
+   C11_divok_exact / C11_valid_exact (Proofs/InGenQ.v): in exact rational arithmetic (the NumQ
+   instance) DivOK holds for every positive finite generation time, so conversion to generations
+   ALWAYS returns a valid graph — F12 is rounding, overflow and underflow, nothing else. *)
 From Coq Require Import Bool List String QArith.
-From Demes Require Import Base.Num Base.Py Model.MDM Model.InGen Spec.Valid Proofs.InGenProofs Proofs.InGenValid.
+From Demes Require Import Base.Num Base.NumQ Base.Py Model.MDM Model.InGen Spec.Valid Proofs.InGenProofs Proofs.InGenValid Proofs.InGenQ.
 Import ListNotations.
 Local Open Scope string_scope.
 Local Open Scope list_scope.
@@ -38,7 +41,16 @@ Section C11.
   Proof. exact (ingen_valid g h). Qed.
 End C11.
 
+Theorem C11_divok_exact r isint ts : (0 < r)%Q -> @DivOK NumQ NumQLaws (QF r isint) ts.
+Proof. exact (divok_Q r isint ts). Qed.
+
+Theorem C11_valid_exact (g h : @graph NumQ) :
+  @Valid NumQ g -> in_generations g = Ok h -> @Valid NumQ h.
+Proof. exact (ingen_valid_Q g h). Qed.
+
 Print Assumptions C11_total.
 Print Assumptions C11_times_divided_frame_unchanged.
 Print Assumptions C11_idempotent.
 Print Assumptions C11_valid.
+Print Assumptions C11_divok_exact.
+Print Assumptions C11_valid_exact.
